@@ -63,6 +63,19 @@ Theorem changeBasis_axis_independent : forall d1 e1 d2 e2 M N,
 Proof. exact changeBasis_axis_independent_lemma. Qed.
 Print Assumptions changeBasis_axis_independent.
 
+(** which matrix changeBasis contracts with the coefficients, as an expression in the matrix T
+    of basis-function values (extracted by following np.linalg.inv / np.transpose /
+    expand_dims to the np.sum): towards Cardinal it is T, towards Chebyshev the inverse, with
+    inverseTranspose=True the inverse transpose of the matrix used without it; 'Array' axes are
+    skipped whatever label is requested for them *)
+Theorem changeBasis_matrix_expression :
+  gen_cb_matrix false false = MT /\
+  gen_cb_matrix true false = MInv (gen_cb_matrix false false) /\
+  (forall b, gen_cb_matrix b true = MTr (MInv (gen_cb_matrix b false))) /\
+  gen_cb_skips_array_axes = true.
+Proof. repeat split; try reflexivity. intro b; destruct b; reflexivity. Qed.
+Print Assumptions changeBasis_matrix_expression.
+
 (** the restricted functions and the derivative entries the source computes *)
 Lemma functions_match_model_lemma {T} (O : Ops T) x n r d ep :
   gen_chebyshev O x n r = chebyshev O x n r /\
@@ -107,22 +120,50 @@ Theorem derivative_correction_consistent_with_basis : forall d ep M N, sizes_ok 
 Proof. exact derivative_correction_consistent_lemma. Qed.
 Print Assumptions derivative_correction_consistent_with_basis.
 
-(** operations do not mutate their operand: no method updates in place an array that may be
-    the object's own coefficients / an argument / an attribute (may-alias scan of every
-    method), in particular the array that [integrate] multiplies in place is freshly
-    allocated whether no weight, weight=None or a weight array is passed; hence the
-    coefficients after [integrate] are the coefficients before, and repeating the call
-    gives the same result *)
-Definition integrate_operand_after (fresh : bool) (factor c : list R) : list R :=
-  if fresh then c else map (fun p => fst p * snd p) (combine c factor).
-Theorem operations_do_not_mutate_operand :
-  gen_inplace_on_operand = 0%nat /\ (forall w, gen_int_fresh w = true) /\
-  (forall w factor c, integrate_operand_after (gen_int_fresh w) factor c = c).
+(** Gate on the scanner's verdict -- NOT a theorem about numpy.  All the content is in the
+    (trusted, Python) may-alias scan of tools/gen_poly.py over every method of the class:
+    augmented assignments, stores through subscripts / foreign attributes, `out=`, mutating
+    ndarray / list methods and numpy functions must act on objects allocated inside the
+    method (fresh on every path); `del`, `global`, nested definitions, decorators and
+    module-level patching of the class fail closed.  This obligation only forces the run to
+    stop when the scan reports an update of a possibly-aliased object, or when the array
+    that [integrate] multiplies in place is not freshly allocated (no weight / weight=None /
+    a weight array).  The behavioural statement (operand, caller's array, arguments and grid
+    unchanged; repeated calls agree) is measured on the implementation by the harness. *)
+Theorem scan_reports_no_inplace_update_of_operand :
+  gen_inplace_on_operand = 0%nat /\ (forall w, gen_int_fresh w = true).
+Proof. split; [reflexivity|]. intro w; destruct w; reflexivity. Qed.
+Print Assumptions scan_reports_no_inplace_update_of_operand.
+
+(** _cardinalMatrix (reached through matrix("Cardinal", ..), the Boltzmann intertwiners):
+    the source returns np.identity(size); the extracted size is the number of nodes of
+    getCompactCoordinates(endpoints, direction), and the identity of that size IS the matrix
+    of its docstring, M_ij = C_j(x_i), with the cardinal functions [evaluate] uses -- for
+    every direction and end-point flag, any distinct nodes, all sizes.  matrix / derivMatrix
+    forward (direction, endpoints) unchanged to the builder of the requested basis, and
+    `endpoints` defaults to False everywhere. *)
+Lemma cardinal_matrix_lemma d ep (grid : list R) M N :
+  NoDup grid -> length grid = gsize d M N -> sizes_ok d M N ->
+  gen_cardMatrix_size d ep M N = length (trim d ep grid) /\
+  cardinalMatrixDef ROps d ep grid M N = identityM ROps (gen_cardMatrix_size d ep M N).
 Proof.
-  split; [reflexivity|]. split; [intro w; destruct w; reflexivity|].
-  intros w factor c. destruct w; reflexivity.
+  intros Hnd L HS.
+  assert (E : gen_cardMatrix_size d ep M N = length (trim d ep grid)).
+  { rewrite trim_pyslice. unfold pyslice. rewrite firstn_length, skipn_length, L.
+    destruct d, ep; cbn in *; lia. }
+  split; [exact E|]. rewrite E. now apply cardinalMatrix_is_definition.
 Qed.
-Print Assumptions operations_do_not_mutate_operand.
+Theorem cardinal_matrix_is_identity : forall d ep (grid : list R) M N,
+  NoDup grid -> length grid = gsize d M N -> sizes_ok d M N ->
+  gen_cardMatrix_size d ep M N = length (trim d ep grid) /\
+  cardinalMatrixDef ROps d ep grid M N = identityM ROps (gen_cardMatrix_size d ep M N).
+Proof. exact cardinal_matrix_lemma. Qed.
+Print Assumptions cardinal_matrix_is_identity.
+
+Theorem dispatchers_forward_and_defaults :
+  gen_dispatch_forwards = true /\ gen_default_endpoints = repeat false 6.
+Proof. split; reflexivity. Qed.
+Print Assumptions dispatchers_forward_and_defaults.
 
 (** * 2. cardinal functions, interpolation, derivative matrix: arbitrary distinct nodes *)
 Theorem cardinal_delta : forall grid xn xm, In xm grid ->
@@ -247,40 +288,38 @@ Proof.
 Qed.
 Print Assumptions evaluate_indices_are_nodes.
 
-(** change of basis round trip.  External: np.linalg.inv -- hypothesis [Hinv]: the matrix
-    it returns is a left and right inverse as a linear map on vectors of the right length
-    (validated at run time: forward model matrix applied to the implementation's output) *)
-Section RoundTrip.
-Variable Tm Tinv : list (list R).
-Variable size : nat.
-Hypothesis Hinv_l : forall c, length c = size -> omatvec ROps Tinv (omatvec ROps Tm c) = c.
-Hypothesis Hinv_r : forall v, length v = size -> omatvec ROps Tm (omatvec ROps Tinv v) = v.
-Hypothesis Hrows : length Tm = size /\ length Tinv = size.
-Lemma roundtrip :
-  (forall c, length c = size ->
-     omatvec ROps Tinv (omatvec ROps Tm c) = c /\ length (omatvec ROps Tm c) = size) /\
-  (forall v, length v = size ->
-     omatvec ROps Tm (omatvec ROps Tinv v) = v /\ length (omatvec ROps Tinv v) = size).
-Proof.
-  destruct Hrows as [A B]. split; intros c L; (split; [auto|]);
-    unfold omatvec; now rewrite map_length.
-Qed.
-End RoundTrip.
-Theorem change_basis_roundtrip_partial : forall Tm Tinv size,
-  (forall c, length c = size -> omatvec ROps Tinv (omatvec ROps Tm c) = c) ->
-  (forall v, length v = size -> omatvec ROps Tm (omatvec ROps Tinv v) = v) ->
-  length Tm = size /\ length Tinv = size ->
-  (forall c, length c = size ->
-     omatvec ROps Tinv (omatvec ROps Tm c) = c /\ length (omatvec ROps Tm c) = size) /\
-  (forall v, length v = size ->
-     omatvec ROps Tm (omatvec ROps Tinv v) = v /\ length (omatvec ROps Tinv v) = size).
-Proof. exact roundtrip. Qed.
-Print Assumptions change_basis_roundtrip_partial.
+(** change of basis round trip.  External: np.linalg.inv, represented by an arbitrary
+    function [inv] of which ONLY the residual property  T (inv v) = v  is assumed (the harness
+    checks exactly this on every run: the model matrix applied to the implementation's
+    Cardinal -> Chebyshev output reproduces the input).  Conclusions: Chebyshev -> Cardinal ->
+    Chebyshev returns the coefficients (uses injectivity of the basis matrix, proved below
+    from the roots bound and the exact degree of T_n) and Cardinal -> Chebyshev -> Cardinal
+    returns the grid values.  Not proved: that such an [inv] exists (surjectivity of T, i.e.
+    "injective square matrix is invertible"). *)
+Theorem change_basis_roundtrip_from_residual : forall d ep M N grid (inv : list R -> list R),
+  grid_ok d M N grid -> sizes_ok d M N ->
+  let n := length (cfg_range (cfg_changeBasis d ep M N)) in
+  let T := tnMatrix ROps d ep grid M N in
+  (forall v, length v = n -> length (inv v) = n /\ omatvec ROps T (inv v) = v) ->
+  (forall c, length c = n -> inv (omatvec ROps T c) = c) /\
+  (forall v, length v = n -> omatvec ROps T (inv v) = v).
+Proof. exact roundtrip_from_residual. Qed.
+Print Assumptions change_basis_roundtrip_from_residual.
+
+(** the Chebyshev coefficients of given grid values are unique *)
+Theorem chebyshev_coefficients_unique : forall d ep M N grid c c',
+  grid_ok d M N grid -> sizes_ok d M N ->
+  length c = length (cfg_range (cfg_changeBasis d ep M N)) -> length c' = length c ->
+  omatvec ROps (tnMatrix ROps d ep grid M N) c' = omatvec ROps (tnMatrix ROps d ep grid M N) c ->
+  c' = c.
+Proof. exact tnMatrix_unique. Qed.
+Print Assumptions chebyshev_coefficients_unique.
+
 (** basis_matrix_invertible: the matrix that changeBasis builds and inverts is square and
     has a trivial kernel -- for every direction and end-point flag, on every well-formed
     grid (distinct nodes, end points -1 / +1), for all sizes.  (That an injective square
     real matrix has a two-sided inverse is standard linear algebra and not formalised;
-    [change_basis_roundtrip_partial] takes the inverse as a hypothesis.) *)
+    [change_basis_roundtrip_from_residual] assumes only the residual property of the computed inverse.) *)
 Theorem basis_matrix_injective : forall d ep M N grid c,
   grid_ok d M N grid -> sizes_ok d M N ->
   length c = length (cfg_range (cfg_changeBasis d ep M N)) ->
@@ -300,18 +339,34 @@ Theorem cheb_exact_degree : forall n, is_poly (S n) (TR n) /\ ~ is_poly n (TR n)
 Proof. intro n. split; [apply TR_is_poly|apply TR_not_lower]. Qed.
 Print Assumptions cheb_exact_degree.
 
-(** linearity *)
-Theorem matrix_action_linear : forall (r a b : list R) k, length a = length b ->
-  odot ROps r (map (fun p => k * fst p + snd p) (combine a b)) = k * odot ROps r a + odot ROps r b.
-Proof. exact odot_linear. Qed.
-Print Assumptions matrix_action_linear.
+(** linearity of the action of ANY matrix of the model on a coefficient vector (a fact about
+    the model's dot product; that numpy's sum(matrix * expand_dims(c)) is this product is
+    validated by the correspondence runs, not proved) *)
+Lemma model_matrix_action_linear_lemma (m : list (list R)) (a b : list R) k :
+  length a = length b ->
+  omatvec ROps m (map (fun p => k * fst p + snd p) (combine a b)) =
+  map (fun p => k * fst p + snd p) (combine (omatvec ROps m a) (omatvec ROps m b)).
+Proof.
+  intro L. unfold omatvec. induction m as [|r m IH]; [reflexivity|].
+  cbn [map combine fst snd]. rewrite IH. f_equal. now apply odot_linear.
+Qed.
+Theorem model_matrix_action_linear : forall (m : list (list R)) (a b : list R) k,
+  length a = length b ->
+  omatvec ROps m (map (fun p => k * fst p + snd p) (combine a b)) =
+  map (fun p => k * fst p + snd p) (combine (omatvec ROps m a) (omatvec ROps m b)).
+Proof. exact model_matrix_action_linear_lemma. Qed.
+Print Assumptions model_matrix_action_linear.
 
-(** axis-wise action of the nested-list operators *)
-Theorem axiswise : forall T (O : Ops T) i m r l,
+(** The model's rank-r operators act along axis i+1 by mapping the axis-i operator over the
+    leading index.  This holds BY DEFINITION of [apply_axis] / [contract_axis] (it is how the
+    model spells "independently along each axis"); it says nothing about numpy.  The
+    implementation's expand_dims/sum plumbing is compared with these operators by exact
+    evaluation (ranks 1-3 quick, 4 thorough) and with the numpy oracle (ranks up to 6). *)
+Theorem model_operators_axiswise_by_definition : forall T (O : Ops T) i m r l,
   apply_axis O (S i) m (Vec l) = Vec (map (apply_axis O i m) l) /\
   contract_axis O (S i) r (Vec l) = Vec (map (contract_axis O i r) l).
 Proof. intros. split; reflexivity. Qed.
-Print Assumptions axiswise.
+Print Assumptions model_operators_axiswise_by_definition.
 
 (** * 4. Gauss-Chebyshev-Lobatto quadrature *)
 Theorem gcl_cos_sum_thm : forall n m : nat, (1 <= n)%nat -> (1 <= m <= 2 * n - 1)%nat ->
@@ -375,4 +430,35 @@ Example grid_ok_example : grid_ok Dz 2 3 [-1; 0; 1] /\ sizes_ok Dz 2 3.
 Proof.
   unfold grid_ok, sizes_ok. repeat split; try reflexivity; try lia.
   repeat constructor; cbn; intros H; repeat destruct H as [H|H]; try lra; try contradiction.
+Qed.
+
+(** non-vacuity of the hypotheses of [deriv_matrix_exact]: f = 1 - x^2 on the z grid without
+    end points (vanishes at the dropped points, 3 coefficients on 3 nodes, f' = -2x) *)
+Example deriv_matrix_exact_hypotheses :
+  let grid := [-1; 0; 1] in let f := fun x : R => 1 - x * x in
+  NoDup grid /\ is_poly (length grid) f /\
+  (forall g, In g grid -> ~ In g (trim Dz false grid) -> f g = 0) /\
+  (forall x, derivable_pt_lim f x (-2 * x)).
+Proof.
+  cbn zeta. repeat split.
+  - repeat constructor; cbn; intros H; repeat destruct H as [H|H]; try lra; try contradiction.
+  - exists [1; 0; -1]. split; [cbn; lia|]. intro x. cbn. ring.
+  - intros g Hin Hn. cbn in Hin, Hn. destruct Hin as [<-|[<-|[<-|[]]]]; try ring.
+    exfalso. apply Hn. now left.
+  - intro x.
+    apply (derivable_pt_lim_ext (fun y => (fun _ => 1) y - ((fun z => z) y * (fun z => z) y)%R));
+      [reflexivity|].
+    replace (-2 * x) with (0 - (1 * x + x * 1)) by ring.
+    apply derivable_pt_lim_minus; [apply derivable_pt_lim_const|].
+    apply (derivable_pt_lim_mult (fun z => z) (fun z => z)); apply derivable_pt_lim_id.
+Qed.
+
+(** non-vacuity of the hypotheses of [integrate_exact]: q = 1 (b = [1]) for M = 4 *)
+Example integrate_exact_hypotheses :
+  sizes_ok Dz 4 5 /\ (2 <= gen_int_div Dz false 4 5)%nat /\
+  (length [1] <= 2 * gen_int_div Dz false 4 5 - 2)%nat /\
+  (forall t, (fun _ : R => 1) (- cos t) = trigpoly [1] t).
+Proof.
+  repeat split; cbn; try lia. intro t. unfold trigpoly. cbn.
+  rewrite Rmult_0_l, cos_0. ring.
 Qed.
